@@ -37,6 +37,8 @@ CHECKS["C01"] = dict(
    technique="Lean 4 proof (inductive invariant over a system-call trace acceptor + crash relation; scanner soundness/completeness) + trace-replay correspondence with the real qmail-queue under a simulated libc with fault and crash injection",
    design="DESIGN.md §2 C01")
 
+exec(open(os.path.join(VERIF, "tools", "manifest_entries.py")).read())
+
 PENDING = {}
 
 def main():
